@@ -73,9 +73,9 @@ def coarse_spaces(tier, seed):
         "model": ["NRTL", "UNIQUAC"],
         "mode": ["vac", ("T", -20.0), ("p", 0.5)],
         "frac": core.lat([0.1, 0.5, 0.9, 1.1, 3.0, 10.0], seed),
-        "amount": [0.047, 50.0],
+        "amount": [50.0] if q else [0.047, 50.0],
         "dt": [0.5],
-        "steps": [1, 2, 3, 6],
+        "steps": [2, 3, 6],  # a 1-step run reports the initial state only
         "x0": core.lat([0.05, 0.45, 0.95], seed),
         "basis": ["weight"],
         "T": [333.15],
@@ -107,7 +107,13 @@ def main(tier, seed):
         assumptions=["a raising call is always acceptable for this property", "find_best_fit memoised (deep copies)"],
         technique="explicit-state invariant checking on every reachable reported state of every trace in a finite configuration lattice")
     U.install_fit_memo()
-    for sp in coarse_spaces(tier, seed) + spaces.process_spaces(tier, seed):
+    regular = spaces.process_spaces(tier, seed)
+    for sp in regular:  # a 1-step run reports the initial state only; the regular lattice is C01's, thinned here
+        sp.alphabets[sp.names.index("steps")] = [s_ for s_ in sp.alphabets[sp.names.index("steps")] if s_ > 1][-2:]
+        sp.size = 1
+        for a in sp.alphabets:
+            sp.size *= len(a)
+    for sp in coarse_spaces(tier, seed) + regular:
         spaces.prewarm(sp)
         core.run_space(rep, sp, judge)
     return rep.finish()
